@@ -100,6 +100,14 @@ CLAIMED = {
                 note='Two symbolic kernels are chained (source reconstruction, then the lexer of C01). Arrays inside formulas and image rendering are outside the claim; bodies containing '
                      'the complete end delimiter are excluded as the property says.',
                 ref='DESIGN.md section 5 C11'),
+    'C13': dict(level='model_checking',
+                text='The real base Renderer runs end to end (render: split-level/template interpretation, cacheFilenames, Renderable.filename, __str__ file routing, Filenames, '
+                     'cleanup, unmix) on 4 document skeletons x 6 filename templates with the split level a z3 integer in [-10, 6] and the first title symbolic (for $title '
+                     'templates): a unit gets its own file iff its level <= split level (never for a single-file template), every marker word appears exactly once, in the file of '
+                     'its nearest file-producing ancestor and in document order, file names are pairwise distinct, free of forbidden characters and identical on a second run.',
+                note='Partial: the renderer is template-less (elements fall back to the default hook), so the Python-level routing is covered, not theme layouts or footnote gathering '
+                     'by Jinja2/ZPT templates (compiled template code is beyond the engine). open() is captured in memory.',
+                ref='DESIGN.md section 5 C13'),
     'C15': dict(level='model_checking',
                 text='Bounded exhaustive over request histories of the real generator through its call interface: 7 templates of the documented grammar x histories of 2-4 '
                      '(thorough 4-6) requests x every presence pattern of the bindings (symbolic booleans) x ALL binding values of bounded length over {a,b,blank,/} (symbolic: '
